@@ -77,6 +77,13 @@ def r1_flush_atomicity(ctx):
                    "a second task on the same session (second open on the new session, or the heartbeat) finds the buffer empty and reaches the transport first, so its frame precedes "
                    "Settings, or its PSH overtakes its own buffered SYN and is dropped by the server as unknown stream" % (tk.site, bad[0], "line %s" % body.blocks[bad[0]]["tspan"]["line"]),
                    path=None if ok else render_path(body, sorted(mid))[:12])
+    # what has been taken out of the pending buffer reaches the transport: nothing that can fail (an encode with `?`, a check)
+    # stands between the take and the write — an error exit there drops Settings and every buffered SYN while the session stays open
+    for tk in takes:
+        okt, pt = cfg.must_pass(cfg.succ(tk.bb), body.return_blocks(), via_blocks=[w.bb for w in wwp])
+        ctx.ob("R11.1", "write_frame:taken-bytes-always-reach-the-write", okt, tk.site, "every path from the take to a return passes write_with_padding" if okt else
+               "after the pending frames have been taken out of Session.buffer the function can return without writing them (an error exit between the take and the write): Settings and the buffered SYNs are lost, "
+               "the session stays open and every later data frame refers to streams the server never heard of", path=None if okt else render_path(body, pt)[:14])
     # once buffering is off, *every* frame takes the pending bytes with it: whether to flush depends on nothing but the
     # buffer being non-empty (a frame that skips the flush reaches the transport ahead of the buffered Settings / SYN)
     conds = ctx.conds(body)
@@ -346,6 +353,8 @@ def run(ctx):
     from . import C01, C05
     C01.r8_single_forwarder(ctx)   # one forwarder drains the outbound queue and passes each (id, chunk) on unchanged: per-task FIFO on the wire
     C05.r7_batching(ctx)           # buffering is switched off on the way to every first data write, so buffered SYNs cannot be stranded
+    from . import C02 as _C02a
+    _C02a.r3_allocator(ctx)        # every open takes an id of its own in one atomic step: two openers given the same id mix two tasks' frames on one stream
     r1_flush_atomicity(ctx)
     r2_contiguity(ctx)
     r3_open_order(ctx)
